@@ -63,6 +63,8 @@ def judge(case, out, res):
         w = dict(input=raw, input_reaction=ir, reaction=rx, solved=solved,
                  solved_by=row.get("solved_by"), issue=issue)
         base = dict(case=w, cfg=cfg, inputs=case["inputs"], pos=pos)
+        if "|fault:" in str(case.get("tag")):
+            base["fault"] = case["tag"].split("|fault:")[1]
         sig = rowlib.edit_sig(out, pos, ir)
         if solved is not True:
             res.count("rows_declined")
@@ -92,7 +94,36 @@ def judge(case, out, res):
                 res.count("carbon_excess_inputs")
 
 
+def faulted_case(case, res, where):
+    """a transient failure in one of the late stages (reagent templates, second rule-based run): whatever rows
+    come back must still obey the property (declined rows untouched and with a reason)"""
+    b, tr = rowlib.balancer(0, 1, True)
+    holder, meth = (b.post_processor, "fit") if where == "templates" else (b.rb_method, "run")
+    orig = getattr(holder, meth)
+    n = {"k": 0}
+
+    def faulty(*a, **k):
+        n["k"] += 1
+        if where == "templates" or n["k"] % 2 == 0:
+            raise OSError("injected transient failure in a late stage")
+        return orig(*a, **k)
+
+    setattr(holder, meth, faulty)
+    try:
+        out = rowlib.run_case(case)
+    finally:
+        setattr(holder, meth, orig)
+    res.count("faulted_runs:" + where)
+    if out["rows"] and len(out["rows"]) == len(case["inputs"]):
+        res.count("faulted_runs_that_returned_rows")
+        judge(dict(case, tag=case["tag"] + "|fault:" + where), out, res)
+
+
 def work(shard, res, tier, seed):
+    if "replay" in shard and shard["replay"].get("fault"):
+        v = shard["replay"]
+        faulted_case({"tag": "replay", "inputs": v["inputs"], "cfg": v.get("cfg")}, res, v["fault"])
+        return
     if "replay" in shard:
         v = shard["replay"]
         case = {"tag": "replay", "inputs": v["inputs"], "cfg": v.get("cfg")}
@@ -105,6 +136,8 @@ def work(shard, res, tier, seed):
             pre = {"tag": "excursion", "inputs": case["inputs"][:4], "cfg": dict(case.get("cfg") or {}, threshold=0.99)}
             rowlib.run_case(pre)
             res.count("threshold_excursions")
+        if ci % 4 == 1 and (case.get("cfg") or {}).get("n_jobs", 1) == 1:
+            faulted_case(case, res, ["templates", "second_rule_run"][(ci // 4) % 2])
         out = rowlib.run_case(case)
         for m in out["missing_hooks"]:
             res.count("hook_missing:" + m)
